@@ -390,6 +390,21 @@ class SArr:
     def accumulate(self, axis, op="add"):
         axis = int(axis) % self.ndim
         st = self.struct
+        n = self.shape[axis]
+        if (st is None or st[0] not in ("lin", "cat", "aff")) and isinstance(n, int) and n <= 16 and op == "add":
+            # a short concrete extent of computed values (e.g. a reduction feeding another scan): plain finite sums
+            src = self
+
+            def at_fin(idx, src=src, axis=axis, n=n):
+                tot = None
+                for k in range(n):
+                    pos = list(idx)
+                    pos[axis] = z3.IntVal(k)
+                    term = z3.If(idx[axis] >= k, src._at(tuple(pos)), z3.RealVal(0))
+                    tot = term if tot is None else tot + term
+                return tot
+
+            return SArr(self.shape, at_fin)
         if st is None:
             raise core.Unsupported("scan over an array that is neither a view of a source nor a concatenation of views")
         if st[0] == "lin":
